@@ -266,8 +266,11 @@ def c10c(ctx):
     n, bad = _feature_default_false(fn)
     ctx.check(n >= 1 and not bad, 'WMSServer.authorized_layers:feature-default-false', 'permissions.get(feature, False) is True: default False', fn,
               fail='feature lookup with a permitting default: %s' % bad)
-    adds = g.find_stmts(lambda s: isinstance(s, ast.Assign) and isinstance(s.targets[0], ast.Subscript) and unparse(s.targets[0].value) == 'layers')
-    ok = bool(adds) and all(g.guarded(a, lambda at: at.op == 'is' and 'True' in at.text and '.get(' in at.text, True) and
+    # the authorized map is the first element of the non-PERMIT_ALL result, whatever the local is called
+    amap = {unparse(g.stmt[r].value.elts[0]) for r in rets if isinstance(g.stmt[r].value, ast.Tuple) and len(g.stmt[r].value.elts) == 2 and
+            isinstance(g.stmt[r].value.elts[0], ast.Name) and g.stmt[r].value.elts[0].id != 'PERMIT_ALL_LAYERS'}
+    adds = g.find_stmts(lambda s: isinstance(s, ast.Assign) and isinstance(s.targets[0], ast.Subscript) and unparse(s.targets[0].value) in amap)
+    ok = bool(adds) and len(amap) == 1 and all(g.guarded(a, lambda at: at.op == 'is' and 'True' in at.text and '.get(' in at.text, True) and
                             g.guarded(a, lambda at: at.op == '==' and "'partial'" in at.text, True) for a in adds)
     ctx.check(ok, 'WMSServer.authorized_layers:only-permitted-listed', 'a layer enters the authorized map only for "partial" and feature is True', fn)
     un = g.find_stmts(lambda s: isinstance(s, ast.Raise) and '401' in unparse(s.exc))
